@@ -1,1 +1,3 @@
 pub mod ctrlpoints;
+pub mod num;
+pub mod timing;
